@@ -411,12 +411,14 @@ func (s *badgerStore) UpdateNodePeers(nodeID store.NodeID, peers []string, block
 	nodeKey := []byte(fmt.Sprintf("vip:node:%s", nodeID))
 	peersKey := []byte(fmt.Sprintf("vip:peers:%s", nodeID))
 	now := time.Now()
-	var node store.Node
 	nodePeers := map[store.NodeID]time.Time{}
 	err = s.update(func(txn *badger.Txn) error {
-		// Start from scratch on every attempt.
+		// Start from scratch on every attempt. (Also the record read below:
+		// decoding leaves fields that are not in the stored record as they
+		// are, so a retry must not decode into what the last attempt read.)
 		inactive = nil
 		nodePeers = map[store.NodeID]time.Time{}
+		var node store.Node
 
 		// Update this node's LastSeen
 		if err := getItem(txn, nodeKey, &node); err == badger.ErrKeyNotFound {
